@@ -303,6 +303,34 @@ func runC02(r *Run) {
 	} else {
 		r.Bad("R3", "anchor/StateDB.Commit", "", "StateDB.Commit not found")
 	}
+	// a zero-amount AddBalance/SubBalance journals nothing: this is why a plain call (value 0) into a
+	// precompile or a contract leaves the callee's account out of the dirty set, and with it why the
+	// Cosmos-side change made under the StateDB is not overwritten at Commit.
+	{
+		appenders := journalAppenders(P)
+		r.Floor("R3", "statedb functions that append to the journal", len(appenders), 8)
+		for _, name := range []string{"AddBalance", "SubBalance"} {
+			fn, ok := P.FnOK("(*x/evm/statedb.stateObject)." + name)
+			if !ok {
+				r.Bad("R3", "anchor/stateObject."+name, "", "not found")
+				continue
+			}
+			_, ne := condEdges(fn, func(x, y ssa.Value) bool {
+				for _, pr := range [][2]ssa.Value{{x, y}, {y, x}} {
+					if c, ok := callNamed(pr[0], "Sign"); ok && isParam(c.Call.Args[0], "amount") {
+						if n, ok := constInt(pr[1]); ok && n == 0 {
+							return true
+						}
+					}
+				}
+				return false
+			})
+			isJ := isCallMatching(func(ci CallInfo) bool { return ci.Static != nil && appenders[ci.Static] })
+			w := PathQuery{Fn: fn, Target: isJ, DelEdge: edgeSet(ne)}.Search()
+			r.Check(len(ne) > 0 && w == nil, "R3", fnID(fn)+"#zero-amount-journals-nothing", P.Pos(fnPos(fn)), "journal-appending calls are reachable only when amount.Sign() != 0",
+				"stateObject."+name+" can append to the journal (mark the account dirty) for a zero amount: a value-0 call then puts the callee — e.g. a module account whose bank balance a precompile changes under the StateDB — into the dirty set, and the final Commit overwrites its bank balance with the stale cached one (the difference is minted or burned)", P.witness(w)...)
+		}
+	}
 	if ok2 {
 		isSB := isCallMatching(func(ci CallInfo) bool {
 			return ci.Static == setBal && errHandled(ci.Instr) && isParam(argN(ci.Instr, 1), "addr") && backSlice(argN(ci.Instr, 2)).HasParam("account")
@@ -550,4 +578,29 @@ func addrOfLoad(v ssa.Value) ssa.Value {
 		return u.X
 	}
 	return nil
+}
+
+// journalAppenders: functions of x/evm/statedb that reach (*journal).append through static calls.
+func journalAppenders(P *Prog) map[*ssa.Function]bool {
+	app, ok := P.FnOK("(*x/evm/statedb.journal).append")
+	out := map[*ssa.Function]bool{}
+	if !ok {
+		return out
+	}
+	out[app] = true
+	for changed := true; changed; {
+		changed = false
+		for _, fn := range P.Funcs {
+			if out[fn] || fn.Pkg == nil || !pathHasSuffix(fn.Pkg.Pkg.Path(), "x/evm/statedb") || isTestSupport(P, fn) {
+				continue
+			}
+			eachCall(fn, func(ci CallInfo) {
+				if ci.Static != nil && out[ci.Static] && !out[fn] {
+					out[fn] = true
+					changed = true
+				}
+			})
+		}
+	}
+	return out
 }
